@@ -39,6 +39,17 @@ Perm3 == {q \in [1..3 -> Names] : \A i, j \in 1..3 : i # j => q[i] # q[j]}
 ErrCases == {[kind |-> "badcond", flags |-> <<>>, supported |-> <<>>, names |-> <<>>, mapped |-> SetToSortedSeq(m)] : m \in (SUBSET {1, 2})}
             \cup {[kind |-> "filtermissing", flags |-> <<>>, supported |-> <<>>, names |-> <<>>, mapped |-> <<>>]}
             \cup {[kind |-> k, flags |-> <<>>, supported |-> <<>>, names |-> p, mapped |-> <<>>] : k \in {"convnum", "validatorset", "unrefcond"}, p \in Perm3}
+            \* more places where a set, a generated name or a random name can reach an output or an error record:
+            \*   appliedids   items WITHOUT id (their identifiers are generated) and a template that prints the applied identifiers
+            \*   converr      an error record that prints the rule, the rule carrying the identifiers `names` of applied items
+            \*   reflagerr    a modifier error that prints a regular expression with its flag set
+            \*   dangling3    three selectors that match nothing: the order of the validator's issues
+            \*   attrerr      a rule attribute condition that cannot compare, in a pipeline with the items `names` and an added condition
+            \*   unknownvals  a validator configuration naming three unknown validators
+            \*   tracking     the field mapping tracking table after chained one-to-many mappings over `names`
+            \*   underq       a selector pattern starting with an underscore beside an added condition (random name)
+            \cup {[kind |-> k, flags |-> <<>>, supported |-> <<>>, names |-> p, mapped |-> <<>>] :
+                    k \in {"appliedids", "converr", "reflagerr", "dangling3", "attrerr", "unknownvals", "tracking", "underq"}, p \in Perm3}
 ASSUME LET S == SetToSeq(ReCases \cup StrictCases \cup VarCases \cup CustomCases \cup ErrCases)
        IN  ndJsonSerialize(IOEnv.VERIF_OUT, [i \in 1..Len(S) |-> [id |-> i] @@ S[i]])
 Init == x = 0
